@@ -483,7 +483,7 @@ func O8f(rc *RC, only func(fnKey string) bool, floor int) {
 // O7: tensors handed to ReturnTensor inside the library are created in that function; a
 // parameter may be recycled only under the guard that it is not the caller's reuse tensor.
 
-var o7Fresh = map[string]bool{"Clone": true, "Materialize": true, "New": true, "NewDense": true, "recycledDense": true, "borrowDense": true, "SafeT": true, "recycledDenseNoFix": true, "ShallowClone": false,
+var o7Fresh = map[string]bool{"Clone": true, "Materialize": true, "New": true, "NewDense": true, "recycledDense": true, "borrowDense": true, "SafeT": true, "recycledDenseNoFix": true, "ShallowClone": true, // a fresh header with its own metadata (rule O8, since fix of finding 33); ReturnTensor resets header fields only and never frees the shared storage
 	"TensorMul": true, // returns the tensor it builds from clones of its operands (no reuse option)
 }
 
